@@ -21,6 +21,7 @@ type TxnSpec struct {
 	Key    int    `json:"key"`
 	Commit bool   `json:"commit"`
 	Form   int    `json:"form,omitempty"` // forupd: 1 = the table is the joined (second) table of the FOR UPDATE query
+	Noop   int    `json:"noop,omitempty"` // forupd / inc: a data-changing statement that matches no record follows the first statement (1 UPDATE, 2 DELETE, 3 INSERT ... SELECT of nothing)
 }
 
 type wtChoice struct {
@@ -93,6 +94,10 @@ func txnProgram(j int, tx TxnSpec, uniq int) []string {
 		} else {
 			s = append(s, sel(1, " FOR UPDATE")...)
 		}
+		if tx.Noop > 0 {
+			// the table stays held although this statement changes nothing
+			s = append(s, []string{fmt.Sprintf("UPDATE %s SET n = n + 1 WHERE id = 99999;", t), fmt.Sprintf("DELETE FROM %s WHERE id = 99999;", t), fmt.Sprintf("INSERT INTO %s SELECT id, n FROM %s WHERE id = 99999;", t, t)}[tx.Noop-1])
+		}
 		s = append(s, fmt.Sprintf("UPDATE %s SET n = n + 1 WHERE id = %d;", t, tx.Key))
 		s = append(s, sel(2, "")...)
 	case "ins":
@@ -103,6 +108,7 @@ func txnProgram(j int, tx TxnSpec, uniq int) []string {
 		}
 		s = append(s, sel(2, "")...)
 	}
+	s = append(s, fmt.Sprintf("ECHO '@C %d';", j)) // the transaction ends with the next statement
 	if tx.Commit {
 		s = append(s, "COMMIT;")
 	} else {
@@ -216,6 +222,9 @@ func genCounterScenario(prop string, seed uint64, tier string, maxProcs int) (*S
 			tx := TxnSpec{Kind: kinds[r.Intn(len(kinds))], Table: tb, Key: r.Range(1, meta.Rows[tb]), Commit: r.Bool(0.85)}
 			if tx.Kind == "forupd" && r.Bool(0.4) {
 				tx.Form = 1
+			}
+			if tx.Kind == "forupd" && r.Bool(0.35) {
+				tx.Noop = r.Pick(1, 2, 3)
 			}
 			if tx.Kind == "inc" && r.Bool(0.3) {
 				tx.Form = r.Pick(1, 2)
@@ -430,6 +439,7 @@ type holdObserver struct {
 	violations               []Violation
 	acqStart                 map[int]time.Duration // per process: time its current acquisition attempt began
 	blockedByLock, backedOff int
+	untilEnd                 bool // the programs print @C before the statement that ends a transaction
 }
 
 func newHoldObserver() *holdObserver {
@@ -470,6 +480,15 @@ func (h *holdObserver) OnArrival(k *Kernel, g *G, a *arrival) {
 		hs := h.holds[path]
 		for j := range hs {
 			if hs[j].proc == g.proc.idx {
+				// a table held for update stays held until the transaction ends: COMMIT, ROLLBACK
+				// (the marker @C precedes both) or the end of the program
+				if (hs[j].mode == 'U' || hs[j].mode == 'C') && h.untilEnd && !g.proc.ending.Load() && g.proc.out != nil && !strings.HasPrefix(g.proc.out.lastMarker, "@C ") {
+					h.violations = append(h.violations, Violation{
+						Prop: "C09", Clause: "held-until-transaction-end",
+						Sig:    "hold-released-before-transaction-end",
+						Detail: fmt.Sprintf("p%d released %s, which it held in mode %c, in the middle of its transaction (%s; last marker %q, step %d): other processes can read and write the table before this transaction ends", g.proc.idx, path, hs[j].mode, a.arg[:i], g.proc.out.lastMarker, k.step.Load()),
+					})
+				}
 				h.holds[path] = append(hs[:j:j], hs[j+1:]...)
 				break
 			}
@@ -497,6 +516,7 @@ func (c09) Eval(t *testing.T, c *Case, dec func(int) *Decider) *Outcome {
 	mustUnJSON(sc.Meta["workload"], &meta)
 	o := &Outcome{}
 	ho := newHoldObserver()
+	ho.untilEnd = true
 	res, k := Execute(t, sc, dec(0), ho)
 	o.Runs = 1
 	o.addStats(res.Stats)
